@@ -574,6 +574,17 @@ func (w *walker) transfer(st *wstate, in ssa.Instruction, prev *ssa.BasicBlock) 
 			}
 			return
 		}
+		if e, tgt, ok := errorsIsConst(x); ok {
+			l, r := w.eval(st, e), w.eval(st, tgt)
+			switch {
+			case l.k == avNil:
+				st.vals[x] = avBool(false)
+				return
+			case l.k == avConst && r.k == avConst && l.c != nil && r.c != nil && l.c.Kind() == r.c.Kind():
+				st.vals[x] = avBool(constant.Compare(l.c, token.EQL, r.c))
+				return
+			}
+		}
 		// an unmodelled call may write through every pointer it is given
 		for _, a := range x.Call.Args {
 			if pv := w.eval(st, a); pv.k == avPtr && strings.HasPrefix(pv.key, "A:") {
